@@ -583,5 +583,68 @@ def lemmas_c19(workdir):
 GROUPS['c19'] = lemmas_c19
 
 
+# ------------------------------------------------------------------------------------------------
+# C04-A1: concrete anchor of the reference recurrence on the project's documented serial examples
+# ------------------------------------------------------------------------------------------------
+def lemmas_c04(workdir):
+    """Not solver-decided (labelled so): the recurrence used as oracle by the C04 analyses and the real simulator are both
+    run on the parameters of examples/SingleProcessor.py (documented: 99 parts) and examples/BufferExample.py (10079),
+    and every entry instant at every station is compared.  This validates the oracle itself at a horizon far outside the
+    symbolic bounds."""
+    import random
+    from simprocesd.model import System
+    from simprocesd.model.factory_floor import Source, PartProcessor, Buffer, Sink, PartGenerator
+
+    def recurrence(c, K, n):
+        J = len(c) - 2
+        D = {}
+        for k in range(1, n + 1):
+            for j in range(0, J + 2):
+                arr = (D[(0, k - 1)] if k > 1 else 0) if j == 0 else D[(j - 1, k)]
+                if j == J + 1:
+                    D[(j, k)] = arr + c[j]
+                else:
+                    cands = [arr + c[j]]
+                    if k > 1:
+                        cands.append(D[(j, k - 1)])
+                    if k - K[j + 1] >= 1:
+                        cands.append(D[(j + 1, k - K[j + 1])])
+                    D[(j, k)] = max(cands)
+        return D
+    res = []
+    for name, build, c, K, horizon, documented in [
+        ('SingleProcessor.py', lambda: (lambda s: [s, PartProcessor('m1', [s], 1)])(Source('src', PartGenerator('p'), 1)),
+         [1, 1, 0], [1, 1, 1], 100, 99),
+        ('BufferExample.py', lambda: (lambda s: (lambda m1: (lambda b: [s, m1, b, PartProcessor('m2', [b], 1)])(Buffer('b1', [m1], 0, 5)))(
+            PartProcessor('m1', [s], 1)))(Source('src', PartGenerator('p'), 0)),
+         [0, 1, 0, 1, 0], [1, 1, 5, 1, 1], 60 * 24 * 7, 10079),
+    ]:
+        random.seed(12345)
+        system = System()
+        devs = build()
+        sink = Sink('snk', [devs[-1]])
+        system.simulate(horizon, print_summary=False)
+        n = sink.received_parts_count
+        D = recurrence(c, K, n + 3)
+        stations = [d.name for d in devs[1:]] + ['snk']
+        bad = []
+        for j, st in enumerate(stations, 1):
+            recs = system.simulation_data['received_part'][st]
+            for k, r in enumerate(recs, 1):
+                if k <= n and r[0] != D[(j - 1, k)]:
+                    bad.append((st, k, r[0], D[(j - 1, k)]))
+        ref_count = sum(1 for k in range(1, n + 4) if D[(len(c) - 2, k)] <= horizon)
+        ok = not bad and n == documented and ref_count == documented
+        res.append({'name': f'C04-A1 concrete anchor {name}: simulator = recurrence = documented count {documented}',
+                    'status': 'proved' if ok else 'violated', 'solver': 'none (concrete run, not solver-decided)', 'queries': 0, 'solver_s': 0.0,
+                    'detail': f'sink count {n}, recurrence count {ref_count}, documented {documented}, {len(bad)} entry instants differ' +
+                              (f': {bad[:3]}' if bad else ''),
+                    'assumptions': ['C04-A1 is a concrete anchor of the oracle on two documented examples, not a solver result']})
+    return res
+
+
+GROUPS['c04'] = lemmas_c04
+
+
 if __name__ == '__main__':
     main()
